@@ -3,7 +3,7 @@ Driver commands of C09:
   xml <opts (7 tokens)> <tree wire>      hex of `renderXml`
   xmlread <hex>                          `none` or the canonical rendering of `readXml`'s tree
   xmltree <opts (7 tokens)> <tree wire>  canonical rendering of `xmlTree`
-  xmlshape <tree wire>                   `litLeafT` `noEscapedTagT` (theorem hypotheses) as 0/1
+  xmlshape <tree wire>                   `litLeafT` (the theorems' hypothesis) as 0/1
 -/
 import Comrak.Drv.Opts
 import Comrak.XmlLang
@@ -32,7 +32,7 @@ def handle : Handler := fun cmd args =>
       pure (xmlTree (xmlOpts o) t).render
   | "xmlshape" => some do
       let t ← parseTree args
-      pure (outBool (litLeafT t) ++ " " ++ outBool (noEscapedTagT t))
+      pure (outBool (litLeafT t))
   | _ => none
 
 end Comrak.Drv.Xml
